@@ -37,7 +37,9 @@ Lib == [
           eqs |-> << Eq(<<"div", V("a", 0), V("a", CNeg1)>>, P("g")),
                      Eq(V("y", 0), <<"mul", N(2), V("a", 0)>>) >>,
           fix |-> << <<"a", R(2)>> >>, swap |-> <<>>,
-          level |-> [a |-> R(2), y |-> R(4)], change |-> [a |-> Q(3, 2), y |-> Q(3, 2)], parsol |-> <<>>, mvars |-> <<>>, meqs |-> <<>>, xvars |-> <<>>],
+          level |-> [a |-> R(2), y |-> R(4)], change |-> [a |-> Q(3, 2), y |-> Q(3, 2)], parsol |-> <<>>, mvars |-> <<>>, meqs |-> <<>>, xvars |-> <<>>,
+          \* a second parameterisation with its own certificate: the harness runs both as the two variants of ONE model (different growth rates)
+          alt |-> [pars |-> << <<"g", R(2)>> >>, level |-> [a |-> R(2), y |-> R(4)], change |-> [a |-> R(2), y |-> R(2)]]],
   S3 |-> [vars |-> <<"k", "c">>, logv |-> {}, logrep |-> {}, pars |-> << <<"d", Q(1, 2)>> >>, linear |-> TRUE, flat |-> FALSE,
           eqs |-> << Eq(V("k", 0), <<"add", V("k", CNeg1), P("d")>>),
                      Eq(V("c", 0), <<"add", <<"mul", N(2), V("k", 0)>>, N(1)>>) >>,
@@ -95,8 +97,18 @@ Lib == [
                      Eq(V("y", 0), <<"add", V("x", 0), N(1)>>) >>,
           fix |-> <<>>, swap |-> <<>>,
           level |-> [x |-> R(-2), y |-> R(-1)], change |-> [x |-> RZero, y |-> RZero], parsol |-> <<>>,
-          mvars |-> <<>>, meqs |-> <<>>, xvars |-> <<>>, altstart |-> <<R(-3), R(1)>>] ]
-Ids == {"S1", "S2", "S3", "S4", "S5", "S6", "S7", "S8", "S9", "S10"}
+          mvars |-> <<>>, meqs |-> <<>>, xvars |-> <<>>, altstart |-> <<R(-3), R(1)>>],
+  \* a trend whose change the equations do not pin down (x - x{-1} = x{-1} - x{-2}): the plan fixes level AND change (SteadyPlan.fix)
+  S11 |-> [vars |-> <<"x", "y">>, logv |-> {}, logrep |-> {}, pars |-> <<>>, linear |-> FALSE, flat |-> FALSE,
+          eqs |-> << Eq(<<"sub", V("x", 0), V("x", CNeg1)>>, <<"sub", V("x", CNeg1), V("x", CNeg2)>>),
+                     Eq(V("y", 0), <<"add", V("x", 0), N(1)>>) >>,
+          fix |-> <<>>, swap |-> <<>>, fixboth |-> << <<"x", R(3), Q(1, 2)>> >>,
+          level |-> [x |-> R(3), y |-> R(4)], change |-> [x |-> Q(1, 2), y |-> Q(1, 2)], parsol |-> <<>>,
+          mvars |-> <<>>, meqs |-> <<>>, xvars |-> <<>>] ]
+Ids == {"S1", "S2", "S3", "S4", "S5", "S6", "S7", "S8", "S9", "S10", "S11"}
+FixBoth(m) == IF "fixboth" \in DOMAIN m THEN m.fixboth ELSE <<>>
+\* the instance under its alternative parameterisation (itself when there is none)
+AltOf(m) == IF "alt" \in DOMAIN m THEN [m EXCEPT !.pars = m.alt.pars, !.level = m.alt.level, !.change = m.alt.change] ELSE m
 
 ParVal(m, n) == LET S == {i \in 1..Len(m.parsol) : m.parsol[i][1] = n} IN
                 IF S # {} THEN m.parsol[CHOOSE i \in S : TRUE][2]
@@ -134,10 +146,12 @@ Compute == /\ ~done /\ done' = TRUE /\ UNCHANGED sc
            /\ \E m \in {Lib[sc]} :
                 out' = [src |-> Decl(m), m |-> m,
                         holds |-> /\ \A i \in 1..Len(m.eqs), k \in 0..3 : SVal(m.eqs[i].lhs, m, k) = SVal(m.eqs[i].rhs, m, k)
+                                  /\ \A i \in 1..Len(m.eqs), k \in 0..3 : SVal(m.eqs[i].lhs, AltOf(m), k) = SVal(m.eqs[i].rhs, AltOf(m), k)
                                   /\ \A i \in 1..Len(m.meqs), k \in 0..3 : SVal(m.meqs[i].lhs, m, k) = SVal(m.meqs[i].rhs, m, k)
                                   \* exogenous variables keep their assigned level; in flat mode their path is constant whatever change was assigned
                                   /\ \A i \in 1..Len(m.xvars) : m.level[m.xvars[i][1]] = m.xvars[i][2] /\ (m.flat => m.change[m.xvars[i][1]] = RZero),
-                        plan_ok |-> /\ \A i \in 1..Len(m.fix) : m.level[m.fix[i][1]] = m.fix[i][2]
+                        plan_ok |-> /\ \A i \in 1..Len(m.fix) : m.level[m.fix[i][1]] = m.fix[i][2] /\ AltOf(m).level[m.fix[i][1]] = m.fix[i][2]
+                                    /\ \A i \in 1..Len(FixBoth(m)) : m.level[FixBoth(m)[i][1]] = FixBoth(m)[i][2] /\ m.change[FixBoth(m)[i][1]] = FixBoth(m)[i][3]
                                     /\ \A i \in 1..Len(m.swap) : m.level[m.swap[i][1]] = m.swap[i][2]
                                                                  /\ \E j \in 1..Len(m.parsol) : m.parsol[j][1] = m.swap[i][3]]
 Next == Compute
